@@ -1,0 +1,7 @@
+//go:build !verif
+// +build !verif
+
+package backend
+
+// verifYield is a no-op unless the tree is built with `-tags verif` (see verif_on.go).
+func verifYield(point string) {}
